@@ -360,3 +360,43 @@ Section BelowFile.
     destruct e; try (eexists; reflexivity). congruence.
   Qed.
 End BelowFile.
+
+(* ---------- below a place where nothing is, nothing resolves either ---------- *)
+
+Lemma walk1_below_absent fs D n q f : Forall plain D -> plain n -> q <> [] -> is_dir_at D fs ->
+  lookup (D ++ [n]) fs = None -> walk1 fs [] (D ++ n :: q) f = WErr ENOENT.
+Proof.
+  intros F [P1 P2] Hq H E.
+  rewrite (walk1_dirs fs D [] (n :: q) f F H). cbn [app walk1]. rewrite P1, P2, E.
+  destruct q; [congruence|reflexivity].
+Qed.
+
+Lemma resolve_below_absent fs R q f : R <> [] -> q <> [] -> Forall real_elem (R ++ q) ->
+  parent_ok R fs -> lookup R fs = None ->
+  exists e, resolve_str fs (rootstr (R ++ q)) f = Err e.
+Proof.
+  intros HR Hq F Hp L. rewrite resolve_str_unfold by (first [exact F|destruct R; [congruence|discriminate]]).
+  destruct (guards_ok _); [|eauto].
+  destruct (exists_last' R HR) as (D & n & ->). unfold parent_ok in Hp. rewrite removelast_last in Hp.
+  apply Forall_app in F as [FR Fq]. apply Forall_app in FR as [FD Fn].
+  inversion Fn as [|? ? Rn _]; subst. rewrite walk_unfold. rewrite <- app_assoc. cbn [app].
+  pose proof (walk1_below_absent fs D n q f (Forall_real_plain _ FD) (real_elem_plain _ Rn) Hq Hp L) as W.
+  unfold name, path in *. rewrite W. eauto.
+Qed.
+
+Lemma resolve_below_file' fs R q f m b : R <> [] -> q <> [] -> Forall real_elem (R ++ q) ->
+  lookup R fs = Some (File m b) -> exists e, resolve_str fs (rootstr (R ++ q)) f = Err e.
+Proof.
+  intros HR Hq F L. destruct (resolve_below_file fs R q f m b HR Hq F L) as [E|E]; rewrite E; eauto.
+Qed.
+
+(* a place that is not a link is a directory, a childless non-link, or nothing *)
+Lemma not_link_cases p fs : not_link_at p fs ->
+  is_dir_at p fs \/ lookup p fs = None \/ exists m b, lookup p fs = Some (File m b).
+Proof.
+  intros NL. destruct (lookup p fs) as [[m l|m b|m t]|] eqn:E.
+  - left. now exists m, l.
+  - right. right. now exists m, b.
+  - exfalso. exact (NL m t E).
+  - right. now left.
+Qed.
